@@ -739,3 +739,71 @@ M("o3-mux-depends-on-switch", "C04", "fire O3", "src/circuit.rs",
             return x0;
         }
         let x0_xor_x1 = self.push_xor(x0, x1);""", "with de-duplication off a different request sequence is made")
+
+# ---------------------------------------------------------------- C10
+M("r1-pin-first", "C10", "fire R1", "src/register_circuit.rs",
+  """    let mut last_used = HashMap::with_capacity(circ.wires_len());
+
+    for (gate_id, w) in circ.wires().enumerate() {""",
+  """    let mut last_used = HashMap::with_capacity(circ.wires_len());
+    for &gate_id in &circ.output_gates {
+        last_used.insert(gate_id, usize::MAX);
+    }
+
+    for (gate_id, w) in circ.wires().enumerate() {""", "an output wire that is also an operand of a later gate loses its pin")
+M("r2-operands-after-out", "C10", "fire R2", "src/register_circuit.rs",
+  """                Wire::Not(a) => {
+                    let op = Op::Not(Not(self.wire_map[&a]));
+                    let out = self.find_out_reg(gate_id, a, None);
+                    Inst { op, out }""",
+  """                Wire::Not(a) => {
+                    let out = self.find_out_reg(gate_id, a, None);
+                    let op = Op::Not(Not(self.wire_map[&a]));
+                    Inst { op, out }""", "a NOT of a dying wire looks its operand up after it was removed from the map")
+M("r3-count-in-xor", "C10", "fire R3", "src/register_circuit.rs",
+  """                    let out = self.find_out_reg(gate_id, a, Some(b));
+                    Inst { op, out }
+                }
+                Wire::And(a, b) => {""",
+  """                    let out = self.find_out_reg(gate_id, a, Some(b));
+                    self.and_ops += 1;
+                    Inst { op, out }
+                }
+                Wire::And(a, b) => {""", "XOR instructions are counted as ANDs")
+M("r4-budget-off", "C10", "fire R4", "src/register_circuit.rs",
+  """            insts: self.insts,
+            max_reg_count: self.next_reg as usize,""",
+  """            max_reg_count: self.insts.len(),
+            insts: self.insts,""", "register budget is the instruction count")
+M("r4-fresh-reg-no-bump", "C10", "fire R4", "src/register_circuit.rs",
+  """        } else {
+            self.next_reg += 1;
+            Reg(self.next_reg - 1)
+        }""",
+  """        } else {
+            Reg(self.next_reg)
+        }""", "fresh registers are handed out twice")
+
+# ---------------------------------------------------------------- C13
+M("j1-guard-tag-b-only", "C13", "fire J1", "src/compile.rs",
+  """        let tags_differ = circuit.push_xor(tag_a, tag_b);
+        join_eq = circuit.push_and(join_eq, tags_differ);""",
+  """        join_eq = circuit.push_and(join_eq, tag_b);""", "two rows of the second array with equal keys join")
+M("j1-no-guard", "C13", "fire J1", "src/compile.rs",
+  """        let tags_differ = circuit.push_xor(tag_a, tag_b);
+        join_eq = circuit.push_and(join_eq, tags_differ);""",
+  """        let _ = (tag_a, tag_b);""", "a key repeated in one array joins with itself")
+M("j2-no-final-sort", "C13", "fire J2", "src/compile.rs",
+  """                circuit.push_bitonic_sorter(1, &mut joined);
+                joined.concat()""",
+  """                joined.concat()""", "positions of the matches leak")
+M("j2-flag-not-first", "C13", "fire J2", "src/compile.rs",
+  """                            for g in binding.iter_mut().skip(1) {
+                                *g = circuit.push_mux(join_eq, *g, 0);
+                            }""",
+  """                            for g in binding.iter_mut().skip(9) {
+                                *g = circuit.push_mux(join_eq, *g, 0);
+                            }""", "the first byte of non-matching rows is not zeroed")
+M("j4-skip-off", "C13", "fire J4", "src/compile.rs",
+  """    for slice in bitonic.windows(2).skip(num_empty_elems) {""",
+  """    for slice in bitonic.windows(2).skip(num_empty_elems.saturating_sub(1)) {""", "a padding row is paired with the first real row")
